@@ -1016,6 +1016,15 @@ class Interp:
             # an iterator object (iter(...)): consumed one element at a time, because the loop body may itself call
             # next() on it (tokenizers that read an escaped character ahead)
             items = it
+        elif type(it) is list:
+            # CPython's list iterator: by index against the live length, so a body that removes or appends elements
+            # sees what it would see natively (skipped / extra elements)
+            def live(lst=it):
+                k = 0
+                while k < len(lst):
+                    yield lst[k]
+                    k += 1
+            items = live()
         else:
             try:
                 items = list(it)
